@@ -58,6 +58,7 @@ class Client:
         self.write_log = []          # (db height at write time, message)
         self._buf = b''
         self._ids = 0
+        self.x_sent = []             # every request sent: {'id', 'method', 'params'}
 
         def factory(tr):
             return cls(sm, system.db, system.mempool, sm.peer_mgr, 'RPC' if rpc else 'TCP', tr)
@@ -66,13 +67,15 @@ class Client:
         self.session = self.protocol.session
 
     def _on_write(self, data):
+        self.system.note_queryable()
         self._buf += data
         while b'\n' in self._buf:
             line, self._buf = self._buf.split(b'\n', 1)
             if line.strip():
                 msg = json.loads(line)
                 self.messages.append(msg)
-                self.write_log.append((self.system.db.state.height, msg))
+                self.write_log.append((self.system.db.state.height, msg,
+                                       set(self.system.ever_queryable)))
 
     def send_raw(self, data):
         self.protocol.data_received(data)
@@ -83,6 +86,8 @@ class Client:
         body = {'jsonrpc': '2.0', 'method': method, 'id': rid}
         if params is not None:
             body['params'] = params if isinstance(params, dict) else list(params)
+        self.x_sent.append({'id': rid, 'method': method, 'params': list(params) if not isinstance(
+            params, dict) else params})
         self.send_raw(json.dumps(body).encode() + b'\n')
         return rid
 
@@ -135,6 +140,7 @@ class System(world.World):
         self.mp_task = None
         self.serve_task = None
         self.notify_log = []            # (height, sorted touched) as passed to _notify_sessions
+        self.ever_queryable = set()     # (height, tip hash) the index has been at
         self.calls_log = []             # Notifications call sequence (for C20's binding)
         self._wrap_notifications()
 
@@ -143,13 +149,25 @@ class System(world.World):
         orig_block, orig_mp = n.on_block, n.on_mempool
 
         async def on_block(touched, height):
-            self.calls_log.append(('bp', height, len(touched)))
+            self.calls_log.append(('bp', height, len(touched), self.db.state.height,
+                                   len(self.daemon.best) - 1))
             return await orig_block(touched, height)
 
         async def on_mempool(touched, height):
-            self.calls_log.append(('mp', height, len(touched)))
+            self.calls_log.append(('mp', height, len(touched), self.db.state.height,
+                                   len(self.daemon.best) - 1))
             return await orig_mp(touched, height)
         n.on_block, n.on_mempool = on_block, on_mempool
+
+    def note_queryable(self):
+        '''Remember every (height, tip) the index has offered to readers.'''
+        st = self.db.state
+        if st is not None and st.height >= 0:
+            self.ever_queryable.add((st.height, bytes(st.tip)))
+
+    def _after_job(self, job):
+        super()._after_job(job)
+        self.note_queryable()
 
     # -- scheduling ------------------------------------------------------------------------------
     def step_default(self):
